@@ -1161,33 +1161,30 @@ Definition load_config (fs : files) (cf : config) : res (list (list cmd)) :=
 (* ------------------------------------------------------------------------------------------------ *)
 (** * Rendering to the interchange type                                                              *)
 (* ------------------------------------------------------------------------------------------------ *)
-(* texts and byte strings are rendered as ONE number (little-endian digits base 256, closed by a digit 1): exact, and far
-   cheaper to print and to read back than a list of code points *)
-Definition vtext (l : list N) : value := VInt (Z.of_N (le_dec (l ++ [1%N]))).
-Definition vstring (s : string) : value := vtext (map (fun a => N_of_ascii a) (list_ascii_of_string s)).
+Definition vstring (s : string) : value := VStr (map (fun a => N_of_ascii a) (list_ascii_of_string s)).
 
 Definition v_dval (v : dval) : value :=
   match v with
-  | DInt z => VList [VInt 0; VInt z]
-  | DStr s => VList [VInt 1; vtext s]
-  | DName s => VList [VInt 2; vstring s]
-  | DBlob b => VList [VInt 3; vtext b]
+  | DInt z => VInt z
+  | DStr s => VStr s
+  | DName s => VList [vstring s]
+  | DBlob b => VBytes b
   end.
 Definition v_dict (d : dict) : value := VList (map (fun kv => VList [vstring (fst kv); v_dval (snd kv)]) d).
 
 Definition v_payload (p : payload) : value :=
   match p with
   | PNone => VList []
-  | PBytes l => VList [VInt 1; vtext l]
-  | PWrap k c s e kek => VList [VInt 2; vtext k; vtext c; VInt s; VInt e; vtext kek]
-  | PEnc k c s e sw a d => VList [VInt 3; vtext k; vtext c; VInt s; VInt e; vbool sw; VInt a; vtext d]
+  | PBytes l => VList [VInt 1; VBytes l]
+  | PWrap k c s e kek => VList [VInt 2; VBytes k; VBytes c; VInt s; VInt e; VBytes kek]
+  | PEnc k c s e sw a d => VList [VInt 3; VBytes k; VBytes c; VInt s; VInt e; vbool sw; VInt a; VBytes d]
   end.
 Definition v_cmd (c : cmd) : value :=
   VList [VInt (c_tag c); VInt (c_flags c); VInt (c_addr c); VInt (c_count c); VInt (c_data c); v_payload (c_payload c); VInt (c_memid c)].
 
 Definition v_config (cf : config) : value :=
   VList [vopt (fun o => VList (map (fun kv => VList [VInt (Z.of_N (fst kv)); v_dval (snd kv)]) o)) (cf_opts cf);
-         vopt (fun o => VList (map (fun kv => VList [VInt (Z.of_N (fst kv)); vtext (snd kv)]) o)) (cf_srcs cf);
+         vopt (fun o => VList (map (fun kv => VList [VInt (Z.of_N (fst kv)); VStr (snd kv)]) o)) (cf_srcs cf);
          vopt (fun o => VList (map (fun kv => VList [VInt (fst kv); v_dict (snd kv)]) o)) (cf_kbs cf);
          VList (map (fun s => VList [VInt (fst s); VList (map (fun kd => VList [vstring (fst kd); v_dict (snd kd)]) (snd s))])
                     (cf_sections cf))].
